@@ -18,6 +18,8 @@
 //	        <result> [start,end,suffix;...] {dir,dir,...}
 //
 //	wq <engine> <unit> <num> <part>...   one flusher round of the liaison write queue, see wq()
+//	wb <engine> <unit> <num> <ts>@<shard>...   one write batch through the write callback's grouping, see wb()
+//	odb <engine> ...   options the engine's supplier.OpenDB opens the database with, see odb()
 //
 // <ztable> is ignored here (it feeds the Lean model); <zone> is an IANA name, "UTC" or "F<seconds>".
 package main
@@ -38,7 +40,9 @@ import (
 	"github.com/apache/skywalking-banyandb/banyand/internal/storage"
 	"github.com/apache/skywalking-banyandb/banyand/internal/verifdrv/drv"
 	"github.com/apache/skywalking-banyandb/banyand/measure"
+	"github.com/apache/skywalking-banyandb/banyand/queue/pub"
 	"github.com/apache/skywalking-banyandb/banyand/stream"
+	"github.com/apache/skywalking-banyandb/banyand/trace"
 	"github.com/apache/skywalking-banyandb/pkg/fs"
 	"github.com/apache/skywalking-banyandb/pkg/logger"
 	"github.com/apache/skywalking-banyandb/pkg/timestamp"
@@ -133,8 +137,129 @@ func handle(f []string) string {
 		return hist(f)
 	case "wq":
 		return wq(f)
+	case "wb":
+		return wb(f)
+	case "odb":
+		return odb(f)
 	}
 	return "bad-op"
+}
+
+// wb <engine stream|trace> <unit> <num> <ts>@<shard> ...   (zone UTC)
+// One write batch through the standalone write callback's real per-batch grouping on a real TSDB.
+// -> <ts>@<shard>:<segStart>,<segEnd>,<tableShard> ... in arrival order
+func wb(f []string) string {
+	if len(f) < 5 {
+		return "bad-op"
+	}
+	time.Local = time.UTC
+	ir := storage.IntervalRule{Unit: unit(f[2]), Num: int(i64(f[3]))}
+	var ts []int64
+	var shards []uint32
+	for _, e := range f[4:] {
+		p := strings.Split(e, "@")
+		ts = append(ts, i64(p[0]))
+		shards = append(shards, uint32(i64(p[1])))
+	}
+	caseNo++
+	dir := filepath.Join(scratchRoot, fmt.Sprintf("b%d", caseNo))
+	if err := os.MkdirAll(dir, 0o700); err != nil {
+		panic(err)
+	}
+	defer os.RemoveAll(dir)
+	var sb []string
+	switch f[1] {
+	case "stream":
+		r, err := stream.VerifSegWriteBatch(dir, ir, ts, shards)
+		if err != nil {
+			return "ERR"
+		}
+		for i, x := range r {
+			sb = append(sb, fmt.Sprintf("%d@%d:%d,%d,%d", x.TS, shards[i], x.Start, x.End, x.Shard))
+		}
+	case "trace":
+		r, err := trace.VerifSegWriteBatch(dir, ir, ts, shards)
+		if err != nil {
+			return "ERR"
+		}
+		for i, x := range r {
+			sb = append(sb, fmt.Sprintf("%d@%d:%d,%d,%d", x.TS, shards[i], x.Start, x.End, x.Shard))
+		}
+	default:
+		return "bad-op"
+	}
+	return strings.Join(sb, " ")
+}
+
+func showRule(r storage.IntervalRule) string {
+	if r.Unit == storage.HOUR {
+		return fmt.Sprintf("H%d", r.Num)
+	}
+	return fmt.Sprintf("D%d", r.Num)
+}
+
+// odb <engine> <ttlUnit> <ttlNum> <siUnit> <siNum> <shards> <node> <stage>...
+//   stage = <ttlNum>:<siNum>:<shards>  (stage i is selected by node label tier=s<i>);
+//   node  = index of the stage the node's labels match, -1 = node without labels, 9 = labels matching no stage
+// The real supplier.OpenDB of the engine on a temp dir; the options read back from the opened database
+// next to what pub.ResolveStage returns.
+// -> db=<ttl>,<si>,<shards>,<disableRetention>,<disableRotation> rs=<the same from ResolveStage>
+func odb(f []string) string {
+	if len(f) < 8 {
+		return "bad-op"
+	}
+	tu, su := pbUnit(unit(f[2])), pbUnit(unit(f[4]))
+	ro := &commonv1.ResourceOpts{
+		ShardNum:        uint32(i64(f[6])),
+		Ttl:             &commonv1.IntervalRule{Unit: tu, Num: uint32(i64(f[3]))},
+		SegmentInterval: &commonv1.IntervalRule{Unit: su, Num: uint32(i64(f[5]))},
+	}
+	for i, st := range f[8:] {
+		p := strings.Split(st, ":")
+		ro.Stages = append(ro.Stages, &commonv1.LifecycleStage{
+			Name: fmt.Sprintf("s%d", i), NodeSelector: fmt.Sprintf("tier=s%d", i), ShardNum: uint32(i64(p[2])),
+			Ttl:             &commonv1.IntervalRule{Unit: tu, Num: uint32(i64(p[0]))},
+			SegmentInterval: &commonv1.IntervalRule{Unit: su, Num: uint32(i64(p[1]))},
+		})
+	}
+	var labels map[string]string
+	switch node := i64(f[7]); {
+	case node == 9:
+		labels = map[string]string{"tier": "none"}
+	case node >= 0:
+		labels = map[string]string{"tier": fmt.Sprintf("s%d", node)}
+	}
+	g := &commonv1.Group{Metadata: &commonv1.Metadata{Name: "g"}, ResourceOpts: ro}
+	caseNo++
+	dir := filepath.Join(scratchRoot, fmt.Sprintf("o%d", caseNo))
+	if err := os.MkdirAll(dir, 0o700); err != nil {
+		panic(err)
+	}
+	defer os.RemoveAll(dir)
+	var si, ttl storage.IntervalRule
+	var shard uint32
+	var dr, dro bool
+	var err error
+	switch f[1] {
+	case "stream":
+		si, ttl, shard, dr, dro, err = stream.VerifSegOpenDB(dir, g, labels)
+	case "measure":
+		si, ttl, shard, dr, dro, err = measure.VerifSegOpenDB(dir, g, labels)
+	case "trace":
+		si, ttl, shard, dr, dro, err = trace.VerifSegOpenDB(dir, g, labels)
+	default:
+		return "bad-op"
+	}
+	if err != nil {
+		return "ERR"
+	}
+	res, rerr := pub.ResolveStage(logger.GetLogger("verif-seg"), "g", ro, labels)
+	if rerr != nil {
+		return "RSERR"
+	}
+	return fmt.Sprintf("db=%s,%s,%d,%s,%s rs=%s,%s,%d,%s,%s", showRule(ttl), showRule(si), shard, drv.B01(dr), drv.B01(dro),
+		showRule(storage.MustToIntervalRule(res.ResourceOpts.Ttl)), showRule(storage.MustToIntervalRule(res.ResourceOpts.SegmentInterval)),
+		res.ResourceOpts.ShardNum, drv.B01(res.DisableRetention), drv.B01(res.DisableRotation))
 }
 
 // wq <engine stream|measure> <unit> <num> <part> ...   (part = ts,ts,...; zone UTC)
